@@ -43,6 +43,25 @@ func RunC07(st *simcore.Stream, tier, leg string, logOn bool, res *simcore.Resul
 	var healAt time.Duration
 	overdueStep := map[*SendRec]int{}
 	restarted := false
+	var restartedSide *Side
+	var restartAt time.Duration
+	// KF2's signature on the wire: after the restart the survivor keeps retransmitting one and the
+	// same InitHello, RespHello or InitDone (a handshake it began with the old incarnation)
+	survivorStuckInOldHandshake := func() bool {
+		if restartedSide == nil {
+			return false
+		}
+		n := map[uint64]int{}
+		for _, e := range w.peerOf(restartedSide).HSOut {
+			if e.At >= restartAt && e.Counter <= 2 {
+				n[e.Sum]++
+				if n[e.Sum] >= 3 {
+					return true
+				}
+			}
+		}
+		return false
+	}
 
 	// at every quiescent point: a Send that is past its bound must have returned
 	w.OnIdleX = func() {
@@ -115,18 +134,55 @@ func RunC07(st *simcore.Stream, tier, leg string, logOn bool, res *simcore.Resul
 			// A has a pending Send; B restarts after j messages of the handshake were delivered
 			j := st.Intn(6)
 			res.Cfg["restartAfterMessages"] = j
-			zsimrt.Go("sender", func() { w.Send(a, context.Background()) })
+			waitOnly := st.Bool(1, 3) || os.Getenv("SIM_FORCE") == "m3"
+			res.Cfg["initiatorOnlyWaitsReady"] = waitOnly
+			if waitOnly {
+				// the initiator establishes the channel without ever sending data through it
+				zsimrt.Go("waiter", func() {
+					ctx, cf := context.WithTimeout(context.Background(), 2*T.Reject)
+					defer cf()
+					if a.Ch.WaitReady(ctx) == nil {
+						res.Probe("waitready-ok")
+					}
+				})
+			} else {
+				zsimrt.Go("sender", func() { w.Send(a, context.Background()) })
+			}
 			if st.Bool(1, 2) {
 				zsimrt.Go("sender", func() { w.Send(b, context.Background()) })
 			}
+			// which side is replaced, and when: in the middle of the handshake (after j delivered
+			// messages) or some time after the channel was established (data may or may not have flowed)
+			victim := b
+			if st.Bool(1, 3) {
+				victim = a
+			}
+			late := st.Bool(1, 3)
+			if os.Getenv("SIM_FORCE") == "m3" { // development aid
+				victim, late, j = a, true, 4
+			}
+			res.Cfg["restartedSide"], res.Cfg["restartAfterEstablishment"] = victim.Name, late
 			zsimrt.WaitUntil("harness/until-restart", func() bool { return w.Net.Delivered >= j || w.Sim.Now() > 3*T.Reject })
-			b.Restart()
+			if late {
+				zsimrt.Sleep(simcore.Pick(st, T.Backoff, T.KeepAlive/2, T.Rekey/2))
+			}
+			restartAt = w.Sim.Now()
+			victim.Restart()
 			restarted = true
+			restartedSide = victim
 			w.Net.FaultsOff = true
 			healed, healAt = true, w.Sim.Now()
 			res.Probe("healed")
+			if st.Bool(1, 2) {
+				// the fresh incarnation has something to say at once: it initiates towards a peer
+				// that may still hold sessions of the old incarnation
+				zsimrt.Go("restarted-sender", func() { w.Send(victim, context.Background()) })
+			}
 			zsimrt.Sleep(bound + 4*T.Backoff)
-			zsimrt.Go("late-sender", func() { w.Send(a, context.Background()) })
+			zsimrt.Go("late-sender", func() { w.Send(w.peerOf(victim), context.Background()) })
+			if st.Bool(1, 2) {
+				zsimrt.Go("late-sender-restarted-side", func() { w.Send(victim, context.Background()) })
+			}
 			// run past the expiry of every session that existed at the restart, to see
 			// whether a stalled Send at least recovers then
 			zsimrt.Sleep(T.Reject + T.KeepAlive + 2*bound)
@@ -134,18 +190,31 @@ func RunC07(st *simcore.Stream, tier, leg string, logOn bool, res *simcore.Resul
 			w.Net.FaultsOff = true
 			w.Sim.ClockWeight = 0
 			healed = true
-			first := w.Send(a, context.Background())
-			if first.Err != nil {
-				res.Violate(w.step(), "send-failed-on-reliable-network", "the first Send on a reliable network failed: %v", first.Err).With("leg", leg)
+			// who talks: both sides, or one side only (then the other never sends data through
+			// any session; when that is the initiator it only ever called WaitReady)
+			talkers := simcore.Pick(st, []*Side{a, b}, []*Side{a, b}, []*Side{a}, []*Side{b})
+			res.Cfg["talkers"] = len(talkers)
+			if len(talkers) == 1 && talkers[0] == b {
+				ctx, cf := context.WithTimeout(context.Background(), bound)
+				if err := a.Ch.WaitReady(ctx); err != nil {
+					res.Violate(w.step(), "send-failed-on-reliable-network", "the first WaitReady on a reliable network failed: %v", err).With("leg", leg)
+				}
+				cf()
+				res.Cfg["initiatorOnlyWaitsReady"] = true
+			} else {
+				first := w.Send(a, context.Background())
+				if first.Err != nil {
+					res.Violate(w.step(), "send-failed-on-reliable-network", "the first Send on a reliable network failed: %v", first.Err).With("leg", leg)
+				}
 			}
-			// steady two-way traffic spaced at less than half the keep-alive
+			// steady traffic spaced at less than half the keep-alive
 			window := time.Duration(simcore.Pick(st, 3, 5, 7)) * T.Rekey
 			gap := T.KeepAlive / 3
 			res.Cfg["window"] = window.String()
 			startHellos := len(a.Hellos) + len(b.Hellos)
 			t0 := w.Sim.Now()
 			for w.Sim.Now() < t0+window {
-				for _, s := range []*Side{a, b} {
+				for _, s := range talkers {
 					ctx, cf := context.WithTimeout(context.Background(), bound)
 					r := w.Send(s, ctx)
 					cf()
@@ -159,7 +228,9 @@ func RunC07(st *simcore.Stream, tier, leg string, logOn bool, res *simcore.Resul
 			allowed := 2 * (int(window/T.Rekey) + 2)
 			res.Checks++
 			res.ProbeN("hellos-under-steady-traffic", hellos)
-			if hellos > allowed {
+			// (the idleness clause is about a session that keeps RECEIVING: with one-way traffic the
+			// talking side hears nothing and may legitimately renew its session every keep-alive period)
+			if hellos > allowed && len(talkers) == 2 {
 				res.Violate(w.step(), "too-many-handshakes", "%d InitHello messages were emitted during %v of steady two-way traffic (a message every %v, keep-alive %v); the rekey period of %v explains at most %d", hellos, window, gap, T.KeepAlive, T.Rekey, allowed).With("leg", leg)
 			}
 		}
@@ -202,17 +273,26 @@ func RunC07(st *simcore.Stream, tier, leg string, logOn bool, res *simcore.Resul
 			res.Violate(overdueStep[r], "send-stuck-after-heal", "Send on %s (pending since t=%v) had not returned %d handshake intervals of %v after the transport became reliable at t=%v (returned=%v at t=%v)", r.Side.Name, r.Start, LivenessIntervals, T.Backoff, healAt, r.Returned, r.End).
 				With("leg", leg).With("side", r.Side.Name).
 				With("peerRestarted", restarted).
+				With("survivorKeepsRetransmittingAnUnfinishedHandshake", survivorStuckInOldHandshake()).
+				With("sendOnRestartedSide", restartedSide != nil && r.Side == restartedSide && r.Gen == r.Side.Gen).
 				With("recoveredOnceOldSessionsExpired", recovered)
 		}
 		w.FinalWire()
 		w.Finished = true
 	})
 	FillStats(res, w)
+	if w.Sim.Stats.HitStepCap && !w.Finished {
+		// the run never reached its judgement: the channels kept each other busy. With the
+		// network reliable that is a livelock of the protocol, not slowness (simulated time
+		// does not pass while messages are answered at once).
+		na, nb := a.Emitted, b.Emitted
+		res.Violate(res.Steps, "message-storm", "the run hit the step cap of %d scheduling steps at t=%v with the two channels still answering each other (A emitted %d messages, B %d) and %d Sends pending: the handshake does not converge", w.Sim.MaxSteps, w.Sim.Now(), na, nb, w.active).With("leg", leg)
+	}
 	// C07 decides liveness; safety classes of C02/C05 are reported by their own checks
 	var keep []simcore.Violation
 	for _, v := range res.Violations {
 		switch v.Class {
-		case "send-stuck-after-heal", "too-many-handshakes", "send-failed-on-reliable-network", "sent-but-not-delivered":
+		case "send-stuck-after-heal", "too-many-handshakes", "send-failed-on-reliable-network", "sent-but-not-delivered", "message-storm":
 			keep = append(keep, v)
 		default:
 			if os.Getenv("SIM_KEEP_ALL") != "" { // development aid: see the other properties' events with their replay
